@@ -23,4 +23,18 @@ theorem C13_src_reset_sends_then_forgets :
 theorem C13_src_reset_single_guard :
     (occurrences poolReset "return" == 1 && occurrences poolReset "if" == 1 && allBefore poolReset "cmp:Is" "return") = true := by decide +kernel
 
+/-- `imap_unordered`: the worker threads are started before any input is queued; in the main loop the refill `put` comes before the
+`yield` (M-POOL: cGet, cPut, then the result is handed out); a forwarded failure resets the pool *before* it is re-raised; the
+normal end resets too -/
+theorem C13_src_imap_shape :
+    (allBefore imapUnordered "start" "put" && allBefore imapUnordered "put" "yield" && allBefore imapUnordered "get" "yield"
+      && noneBefore imapUnordered "raise" "finish_and_reset" && occurrences imapUnordered "finish_and_reset" == 2
+      && (last imapUnordered "finish_and_reset").map (· + 1) == some imapUnordered.length) = true := by decide +kernel
+/-- `Collector.run`: a stop sentinel is forwarded (`put`) before the thread returns; whatever the mapped function does — return or
+raise — something is `put` afterwards (the failure wrapped in `RaisedException`) -/
+theorem C13_src_collector_shape :
+    (allBefore collectorRun "get" "func" && noneBefore collectorRun "return" "put" && allBefore collectorRun "func" "RaisedException"
+      && (match last collectorRun "RaisedException", last collectorRun "put" with | some i, some j => decide (i < j) | _, _ => false)
+      && occurrences collectorRun "return" == 1) = true := by decide +kernel
+
 end Sedpack.Src
